@@ -1,1 +1,121 @@
-// component drivers (filled in later)
+// C10 (b): concurrent cache-filling readers against an in-order committer, on the PRODUCTION
+// `ParallelState::split_for_parallel` views (pub(crate), hence driven from inside the crate).
+// 1-3 reader tasks read accounts / slots / code through `ParallelStateView` while one committer task
+// applies a history of real journal output through `ParallelStateCommit`. Every read records how many
+// commits had completed when it started and how many had started when it returned, so the harness can
+// attribute its value to one of those states; afterwards the harness compares what the state serves
+// with revm `State` driven by the same history.
+
+use crate::verif::rt;
+use crate::verif::sync::thread;
+use revm::{DatabaseCommit, DatabaseRef};
+use revm_primitives::{Address, B256, Bytes, U256};
+use revm_state::EvmState;
+use std::cell::Cell;
+
+#[derive(Clone, Debug, PartialEq, Eq)]
+pub enum ReadOp {
+    Basic(Address),
+    Storage(Address, U256),
+    Code(B256),
+}
+
+#[derive(Clone, Debug, PartialEq, Eq)]
+pub enum ReadVal {
+    /// (balance, nonce, code hash) or None for an absent account
+    Basic(Option<(U256, u64, B256)>),
+    Storage(U256),
+    Code(Bytes),
+    Error(String),
+}
+
+#[derive(Clone, Debug)]
+pub struct ReadRecord {
+    pub reader: usize,
+    pub op: ReadOp,
+    pub value: ReadVal,
+    /// commits completed when the read started
+    pub commits_before: usize,
+    /// commits started when the read returned
+    pub commits_after: usize,
+}
+
+pub fn read_through<DB: DatabaseRef>(db: &DB, op: &ReadOp) -> ReadVal {
+    match op {
+        ReadOp::Basic(a) => match db.basic_ref(*a) {
+            Ok(info) => ReadVal::Basic(info.map(|i| (i.balance, i.nonce, i.code_hash))),
+            Err(_) => ReadVal::Error("basic".into()),
+        },
+        ReadOp::Storage(a, k) => match db.storage_ref(*a, *k) {
+            Ok(v) => ReadVal::Storage(v),
+            Err(_) => ReadVal::Error("storage".into()),
+        },
+        ReadOp::Code(h) => match db.code_by_hash_ref(*h) {
+            Ok(c) => ReadVal::Code(c.original_bytes()),
+            Err(_) => ReadVal::Error("code".into()),
+        },
+    }
+}
+
+/// Runs inside a simulated execution. `history[k]` is committed as the k-th transaction state.
+pub fn parallel_state_readers<DB>(
+    state: &mut crate::ParallelState<DB>,
+    history: Vec<EvmState>,
+    reads: &[Vec<ReadOp>],
+) -> Vec<ReadRecord>
+where
+    DB: DatabaseRef + Send + Sync,
+    DB::Error: Send + Sync,
+{
+    struct Counter(Cell<usize>);
+    unsafe impl Sync for Counter {}
+    impl Counter {
+        fn get(&self) -> usize {
+            self.0.get()
+        }
+        fn inc(&self) {
+            self.0.set(self.0.get() + 1);
+        }
+    }
+    let started = Counter(Cell::new(0));
+    let done = Counter(Cell::new(0));
+    let records = std::sync::Mutex::new(Vec::<ReadRecord>::new());
+    let (view, mut commit) = state.split_for_parallel();
+    rt::set_current_role(rt::ROLE_AUX);
+    thread::scope(|scope| {
+        let committer = scope.spawn(|| {
+            rt::set_current_role(rt::ROLE_COMMIT);
+            for delta in history {
+                // the executing worker loaded every account of its state through the shared view
+                // before the result was committed (commit expects them in the cache)
+                for address in delta.keys() {
+                    let _ = view.basic_ref(*address);
+                }
+                started.inc();
+                rt::sched_point("drv.commit.begin");
+                commit.commit(delta);
+                done.inc();
+                rt::sched_point("drv.commit.end");
+            }
+        });
+        for (reader, ops) in reads.iter().enumerate() {
+            let records = &records;
+            let started = &started;
+            let done = &done;
+            scope.spawn(move || {
+                rt::set_current_role(rt::ROLE_WORKER);
+                for op in ops {
+                    rt::sched_point("drv.read.begin");
+                    let before = done.get();
+                    let value = read_through(&view, op);
+                    let after = started.get();
+                    records.lock().unwrap().push(ReadRecord { reader, op: op.clone(), value, commits_before: before, commits_after: after });
+                }
+            });
+        }
+        if let Err(payload) = committer.join() {
+            std::panic::resume_unwind(payload);
+        }
+    });
+    records.into_inner().unwrap()
+}
